@@ -48,12 +48,46 @@ def init_attr_degs(interp, fns, seed):
     interp.run("__init__", params)
 
 
+def dual_pairing(ctx):
+    """A law that defines its own `potential` (or `B_n` / `B_m`) but takes `complementary_potential` / `C_n_inv` / `C_m_inv` from a base class that
+    pairs them with the base's own potential hands out the dual of ANOTHER energy (the mixed rod formulations read exactly these)."""
+    from .. import protocol
+    rep = ctx.rep
+    n = 0
+    for ci in ctx.model.all_classes():
+        if ci.rel != MM:
+            continue
+        view = protocol.ClassView(ctx, ci)
+        cP, fP = view.method("potential")
+        if fP is None:
+            continue
+        n += 1
+        C = f"{MM}:{ci.qual}"
+        leaks = []
+        for d in ("complementary_potential", "C_n_inv", "C_m_inv"):
+            owners = [c for c in view.mro if d in c.methods or d in c.stores or d in c.class_attrs]
+            if not owners:
+                continue
+            o = owners[0]
+            if o is not cP and o is not ci and "potential" in o.methods and cP is not o:
+                leaks.append((d, o.qual))
+        if leaks:
+            rep.bad("C12.R6", C, fP.name, f"`{ci.qual}` defines its own `potential` (in {cP.qual}) but inherits {[d for d, _ in leaks]} from {leaks[0][1]}, which pairs them with ITS potential: "
+                    "the complementary energy / compliances handed out are the Legendre duals of another energy", f"{MM}:{fP.lineno}")
+        else:
+            rep.ok("C12.R6", C, "complementary side defined together with the potential (or not provided)")
+    if n < 2:
+        raise AnalysisError("C12.R6: fewer than 2 material laws found")
+
+
 def run(ctx):
     rep = ctx.rep
     rep.rule("C12.R1", "homogeneity under joint strain scaling", 14)
     rep.rule("C12.R2", "homogeneity under stiffness scaling", 14)
     rep.rule("C12.R3", "tangent coverage of strain arguments", 8)
     rep.rule("C12.R4", "complementary-energy protocol", 2)
+    rep.rule("C12.R6", "the complementary side (complementary_potential, C_n_inv, C_m_inv) is inherited only together with the potential it is the Legendre dual of", 2)
+    dual_pairing(ctx)
     rep.rule("C12.R5", "dependence monotonicity (K13): forces read no datum the energy does not read, tangents none the forces do not read (live references vs constructor copies)", 12)
     from .. import depmono, protocol
     for cname_ in ("Simo1986", "Harsch2021"):
@@ -65,7 +99,10 @@ def run(ctx):
                 continue
             depmono.check(rep, "C12.R5", v_, ci_.rel, cname_, p_, d_, lineno=f_.lineno)
     mod = ctx.repo.module(MM)
-    laws = [n for n in mod.tree.body if isinstance(n, ast.ClassDef) and any(dotted(b) == "RodMaterialModel" for b in n.bases)]
+    law_names = {"RodMaterialModel"}
+    for _ in range(3):  # direct and indirect subclasses of the abstract law
+        law_names |= {n.name for n in mod.tree.body if isinstance(n, ast.ClassDef) and any(dotted(b) in law_names for b in n.bases)}
+    laws = [n for n in mod.tree.body if isinstance(n, ast.ClassDef) and n.name in law_names and n.name != "RodMaterialModel"]
     if len(laws) < 2:
         raise AnalysisError("fewer than two rod material laws found")
     for law in laws:
@@ -186,6 +223,10 @@ MUTANTS = [
 MUTANTS += [
     dict(id="c12-r5-seed", canary=True, what="[seeded by sub-agent] Simo1986.B_n / B_m scale with the caller's live Ei / Fi arrays while energy and tangents use the copies C_n / C_m", file=MM,
          edits=[(MM, "        dG = B_Gamma - B_Gamma0\n        return self.C_n @ dG\n", "        return self.Ei * (B_Gamma - B_Gamma0)\n")], expect="C12.R5"),
+]
+MUTANTS += [
+    dict(id="c12-r6-seed", canary=True, what="[seeded by sub-agent] Harsch2021 derives from Simo1986 and inherits its complementary energy and compliances", file=MM,
+         old="class Harsch2021(RodMaterialModel):", new="class Harsch2021(Simo1986):", expect="C12.R6"),
 ]
 NEUTRAL = [
     dict(id="c12-n1", canary=True, what="Simo1986.potential written with explicit transposes", file=MM,
